@@ -668,6 +668,14 @@ def generate(unit_name):
     spec_path = os.path.join(SPECS, unit_name + '.vspec')
     lines = read_spec_lines(spec_path)
     u = Unit(unit_name)
+    # acceptance ("live") variants declared in this unit: fn name -> True (used to redirect calls inside live variants)
+    live_names = set()
+    for (l0, f0, n0) in lines:
+        m0 = DIRECTIVE.match(l0)
+        if m0 and m0.group(1).strip().startswith('live '):
+            w0 = shlex.split(m0.group(1).strip())
+            r0, o0 = parse_kv(w0[1:])
+            live_names.add(r0[2])
     i = 0
     while i < len(lines):
         l, f, n = lines[i]
@@ -682,7 +690,7 @@ def generate(unit_name):
         d = m.group(1).strip()
         words = d.split()
         if not words: i += 1; continue
-        if words[0] in ('extract', 'extract!', 'import', 'fragment'): words = shlex.split(d)
+        if words[0] in ('extract', 'extract!', 'import', 'fragment', 'live'): words = shlex.split(d)
         if words[0] == 'unit': i += 1; continue
         if words[0] == 'property': u.properties = words[1:]; i += 1; continue
         if words[0] == 'min_verified': u.min_verified = int(words[1]); i += 1; continue
@@ -707,6 +715,51 @@ def generate(unit_name):
                                 'stub': bool(assumed), 'assumed': bool(assumed), 'seg': len(u.segments), 'spec': (f, n),
                                 'clauses': count_clauses(blocks)})
             u.emit('/*@X %s::%s L%d*/\n' % (path, name, item.line), ('spec', f, n))
+            u.emit(txt + '\n', ('src', path, item.line, f, n))
+            i = nxt; continue
+        if words[0] == 'live':
+            # //@ live fn <path> <name> [impl=..]   + block `sig` = extra (acceptance) preconditions, comma separated, no keyword.
+            # Re-extracts <name> as <name>__live with mode=absent (every panic site must be unreachable under the acceptance
+            # precondition), the SAME contract and ghost blocks as the unit's ordinary extraction of <name>, and calls to other
+            # functions that have a live variant in this unit redirected to it (rule RL).
+            words = shlex.split(d)
+            rest, opts = parse_kv(words[1:])
+            lblocks, nxt = parse_extract_blocks(lines, i)
+            kind, path, name = rest[0], rest[1], rest[2]
+            contracts = unit_contracts(unit_name)
+            key = (path, name, norm(opts['impl']) if 'impl' in opts else None)
+            if key not in contracts: raise GenErr('%s:%d live: no ordinary extraction of %s in this unit' % (f, n, key))
+            copts, cblocks = contracts[key]
+            item = find_item(path, 'fn', name, opts.get('impl'))
+            b2 = {k2: v2 for k2, v2 in cblocks.items()}
+            b2['_rewrites'] = list(cblocks.get('_rewrites', []))
+            extra = lblocks.get('sig', '').strip().rstrip(',')
+            osig = cblocks.get('sig', '')
+            if extra:
+                mreq = re.search(r'\brequires\b', osig)
+                if mreq: osig = osig[:mreq.end()] + ' ' + extra + ',' + osig[mreq.end():]
+                else: osig = '    requires ' + extra + ',\n' + osig
+            # old(x) / final(x) style is unchanged; recursive decreases clauses stay
+            b2['sig'] = osig
+            for kx in lblocks:
+                if kx not in ('sig', '_rewrites', '_lines'): b2[kx] = lblocks[kx]     # live-specific extra hints override
+            # call redirection
+            text0 = item.text; toks0 = tokenize(text0); ci0 = code_tokens(toks0)
+            pats = []
+            for ln in sorted(live_names):
+                pats += ['self.%s(' % ln, 'Self::%s(' % ln]
+            for extra_r in [x for x in opts.get('redirect', '').split(',') if x]:
+                pats.append(extra_r + '(')
+            for pat in pats:
+                if find_code_occurrences(text0, toks0, ci0, 0, len(ci0) - 1, pat):
+                    b2['_rewrites'].append((pat, pat[:-1] + '__live(', 'all'))
+            o2 = dict(copts); o2.update(opts); o2['mode'] = 'absent'; o2['rename'] = name + '__live'
+            txt = extract_fn(item, o2, b2, u.rewrites)
+            check_erasure(item, txt)
+            sha = hashlib.sha256(' '.join(code_texts(item.text)).encode()).hexdigest()
+            u.functions.append({'name': name + '__live', 'orig_name': name, 'kind': 'fn', 'path': path, 'impl': opts.get('impl'), 'line': item.line,
+                                'sha256': sha, 'mode': 'absent', 'stub': False, 'seg': len(u.segments), 'spec': (f, n), 'clauses': count_clauses(b2), 'live': True})
+            u.emit('/*@X live variant of %s::%s L%d*/\n' % (path, name, item.line), ('spec', f, n))
             u.emit(txt + '\n', ('src', path, item.line, f, n))
             i = nxt; continue
         if words[0] == 'fragment':
